@@ -311,7 +311,22 @@ async fn wait_pools(cluster: &MockCluster, nodes: usize) {
 async fn make_env(nodes: usize) -> Env {
     let table = TableDef::new("t", &[("pk", CqlType::Int)], &[("ck", CqlType::Int)], &[("v", CqlType::Int)]);
     let spec = ClusterSpec::uniform("c07", &[("dc1", nodes)], 1, 4, 1).with_keyspace(KeyspaceDef::simple("ks", nodes as u32).with_table(table.clone()));
-    let cluster = MockCluster::start(spec).await.expect("start mock cluster");
+    // environment trouble (address probing, listener start) gets three tries before the whole
+    // group is reported as not run
+    let mut cluster = None;
+    for attempt in 0..3 {
+        match MockCluster::start(spec.clone()).await {
+            Ok(c) => {
+                cluster = Some(c);
+                break;
+            }
+            Err(e) => {
+                eprintln!("c07: mock cluster start failed (attempt {}): {}", attempt, e);
+                tokio::time::sleep(Duration::from_millis(300)).await;
+            }
+        }
+    }
+    let cluster = cluster.expect("start mock cluster");
     // no wall-clock bound the runner did not choose: no default request timeout (30 s in the
     // default profile), no keepalive or metadata traffic that could time out when the machine
     // freezes for a while
